@@ -1924,6 +1924,8 @@ static int64_t eval2(Node *node, char ***label) {
   case ND_ADDR:
     return eval_rval(node->lhs, label);
   case ND_LABEL_VAL:
+    if (!label)
+      error_tok(node->tok, "not a compile-time constant");
     *label = &node->unique_label;
     return 0;
   case ND_MEMBER:
@@ -1949,7 +1951,7 @@ static int64_t eval2(Node *node, char ***label) {
 static int64_t eval_rval(Node *node, char ***label) {
   switch (node->kind) {
   case ND_VAR:
-    if (node->var->is_local)
+    if (node->var->is_local || !label)
       error_tok(node->tok, "not a compile-time constant");
     *label = &node->var->name;
     return 0;
